@@ -360,7 +360,7 @@ Section Patterns.
       | SIf es bs _ => if_children es bs
       | SWhile e b _ => [NE e; NB b]
       | SRepeat b e _ => [NB b; NE e]
-      | SForNum _ _ i lim st b _ => [NE i; NE st; NE lim; NB b]       (* Init, Step, Limit *)
+      | SForNum _ _ i lim st b _ => [NE i; NE lim; NE st; NB b]       (* Init, Limit, Step (fixes/C05-for-step-order.diff) *)
       | SForIn _ _ es b _ => map NE es ++ [NB b]
       | SAssign vars es _ => assign_children vars es
       | SLocal names _ _ es _ =>
